@@ -17,27 +17,64 @@ import sys
 
 import yaml
 
-from tools import common, shroudrun, extract_cli
+from tools import common, shroudrun, extract_cli, extract_optreads
 
 LEVEL = "proof"
+_PHASES = collections.OrderedDict()
+_T = [0.0]
+
+
+def _phase(name):
+    import time
+    now = time.time()
+    if _T[0]:
+        _PHASES[_PHASES.get("_cur", "start")] = round(_PHASES.get(_PHASES.get("_cur", "start"), 0) + now - _T[0], 1)
+    _PHASES["_cur"] = name
+    _T[0] = now
+
+
 MANIFEST = dict(
     category="proof",
-    text="Lean 4 theorems over a model of util.Scope (parent-chained dictionaries), of the option/format scopes built "
-         "for library/namespace/class/block/function nodes, of Parser.attribute with the attrs/fattrs merge and of the "
-         "--option/--language merge: lexical scoping (nearest enclosing definition), container = members with siblings "
-         "unchanged, empty block transparent, inline attribute = attrs entry for any split, command line = YAML fields, "
-         "and a table theorem over regenerated CLI data that create_wrapper's argument record agrees with the parser defaults "
-         "on every field main_with_args reads. The model is tied to the code on every run through the compiled driver; an "
-         "implementation-only oracle byte-compares the complete outputs of pairs of equivalent descriptions, restricted to the "
-         "options/format fields measured (by tracing Scope reads) to be read only from function scopes.",
+    text="Lean 4, 25 theorems, none _partial, over Model/Scope.lean and three regenerated tables. "
+         "(1) Lexical scoping, for all trees, positions, keys and values: lookup = nearest enclosing definition; the heap model of "
+         "util.Scope (with clone/reparent/cycles) agrees with the chain model; writing k:v on a container (namespace, class, block, at any "
+         "path) and writing it on every contained function without a nearer definition give every function the same lookups while "
+         "functions outside keep their chains literally (container_eq_members, container_eq_each_member, sibling_unaffected). "
+         "(2) A block without options is transparent at any position, and a block appends to its parent's list in order. "
+         "(3) Parser.attribute on +k, +k(balanced tokens), +k=scalar equals attrs.update(entries) for every attribute list and every "
+         "split between declaration text and attrs/fattrs; the later entry wins. "
+         "(4) --option/--language: coercion (true/True/false/False, digit strings, text), the merge equals the same fields written in "
+         "the YAML file (with or without an options: entry), crash sites (no '=', empty options:). "
+         "Table theorems (decide over data regenerated from the working tree on every run): create_wrapper assigns every field "
+         "main_with_args reads, each a pass-through parameter or the parser default; --path/--option are argparse append fields whose "
+         "default is [] so the search path of `--path P..` equals create_wrapper(path=[P..]); main.Config holds no class-level mutable "
+         "attribute and creates its lists/dict per instance; in the table of every syntactic option/format read of shroud/*.py no "
+         "function-scoped option (and no explicitly read function-scoped format field) is read through a library-level owner expression "
+         "(allow list empty). "
+         "Ties on every run through the compiled driver drv_scope: util.Scope operation programs, real node construction "
+         "(create_library_from_dictionary, blocks nested in blocks/classes/namespaces) vs build/views, Parser.attribute on real token "
+         "streams, the real main_with_args merge; the Scope read trace validates the static read table and the function-scoped baseline. "
+         "Implementation-only oracle: byte comparison of complete output directories for pairs of equivalent descriptions (option/format "
+         "and wrap_* on container vs members at every placement, sibling, empty block, every accepted attribute name inline vs "
+         "attrs/fattrs on functions/methods/constructors/arguments, generated option values YAML vs real command line, --path with stale "
+         "look-alike files, create_wrapper once and in sequences vs fresh command-line runs).",
     design="3 C14",
-    note="Trusted: Lean kernel (axioms propext, Classical.choice, Quot.sound only); the hand-written scope model (validated on "
-         "generated operation sequences and descriptions only); tools/extract_cli.py (AST scan of main.py). That every consumer "
-         "reads an option from the right scope is exploration (oracle on generated libraries and the regression corpus), not proof. "
-         "Keys _Scope__parent/_Scope__hidden and flatten_namespace list sharing are outside the model; the JSON debug dump is "
-         "excluded from the container/member comparison because it records where an option was written.",
-    technique="Lean 4 proof by induction over chains/trees/token lists + regenerated table (decide) + differential correspondence + "
-              "metamorphic output comparison",
+    note="Trusted: Lean kernel (axioms propext, Classical.choice, Quot.sound only); the hand-written model, validated on generated "
+         "operation sequences, descriptions and token streams only; tools/extract_cli.py and tools/extract_optreads.py (AST scans; the "
+         "read table resolves local aliases, eval_template and scope parameters, validated against the run-time trace: 0 of 99 traced "
+         "options inconsistent; format fields consumed through template strings are NOT in the static table, 71 of 320 traced fields "
+         "have an explicit read). That every consumer reads the right scope is therefore proof only in the static/syntactic sense for "
+         "options and exploration (oracle) for outputs. The chain model (views) takes node dictionaries with unique keys; its link to "
+         "the heap builder is checked per generated tree, not proved. Not modelled: keys _Scope__parent/_Scope__hidden, "
+         "flatten_namespace list sharing, non-ASCII digits in --option, the FunctionNode attrs merge itself (oracle only), the search-path "
+         "code of main_with_args (model searchPath is tied only through the --path oracle). The JSON debug dump is excluded from "
+         "container/member comparisons (it records where an option was written). Open finding, by design: format field "
+         "function_suffix on a container of overloaded functions is replaced by the automatic _0/_1 numbering ('set unless local', the "
+         "same rule as eval_template), because an inherited suffix would name all overloads alike; it is replayed from corpus/c14.txt "
+         "and reported as KNOWN-FINDING. Five defects found by this check were repaired in /repo (create_wrapper fields, block in a "
+         "class, constructors in a block, attrs with fortran_generic, block options in a class template).",
+    technique="Lean 4 proof by induction over chains/trees/token lists + regenerated tables (decide) + differential correspondence through a "
+              "compiled driver + run-time read tracing + metamorphic byte comparison of outputs",
 )
 MODULES = ["ShroudVerif.Props.C14"]
 THEOREMS = {
@@ -66,6 +103,7 @@ THEOREMS = {
         "Shroud.Scope.create_wrapper_matches_parser",
         "Shroud.Scope.config_no_shared_state",
         "Shroud.Scope.cli_path_eq_create_wrapper",
+        "Shroud.Scope.function_scoped_not_read_at_library_level",
     ]
 }
 
@@ -1336,8 +1374,9 @@ def oracle_paths(ctx, orc, scr, thorough):
 def oracle_pairs(ctx, scr, thorough, fs_options, fs_formats, defaults_o, defaults_f):
     r = common.rng("c14-oracle")
     orc = Oracle(ctx, scr)
-    nlib = 9 if thorough else 4
+    nlib = 8 if thorough else 4
 
+    _phase('oracle:containers')
     # ---------- corpus: replayed pairs first
     cpath = os.path.join(common.CORPUS, "c14.txt")
     if os.path.exists(cpath):
@@ -1360,6 +1399,7 @@ def oracle_pairs(ctx, scr, thorough, fs_options, fs_formats, defaults_o, default
                                                  "F_create_bufferify_function")]
         rest = [c for c in opt_cases if c not in must]
         r.shuffle(rest)
+        must.sort(key=lambda c: c[0] != "F_force_wrapper")
         opt_cases = must + rest[:3]
         r.shuffle(fmt_cases)
         fmt_cases = fmt_cases[:4]
@@ -1371,6 +1411,11 @@ def oracle_pairs(ctx, scr, thorough, fs_options, fs_formats, defaults_o, default
     for li in range(nlib):
         if li >= 2 and li % 2 == 0:
             doc = nested_lib_doc(r, "eqv%d" % li, python=(li % 4 == 0))
+            for _ in range(20):
+                st = tree_stats(doc["tree"])
+                if thorough or (st["nodes_fn"] <= 14 and st["nodes_block"] + st["nodes_ns"] + st["nodes_cls"] <= 9):
+                    break
+                doc = nested_lib_doc(r, "eqv%d" % li, python=(li % 4 == 0))
         else:
             doc = lib_doc(r, "eqv%d" % li, python=(li % 2 == 0), simple=("minimal" if li == 0 else li == 1))
         if li >= 2:
@@ -1383,15 +1428,24 @@ def oracle_pairs(ctx, scr, thorough, fs_options, fs_formats, defaults_o, default
             continue
         conts = list(containers(doc["tree"]))
         # ---- option / format on a container vs on each member; the library itself is the container ()
-        for field, cases in ((2, opt_cases), (3, fmt_cases)):
+        if thorough:
+            # every option on every library; the (many, alike) format fields in three rotating thirds, plus all of
+            # them on the two hand-shaped libraries
+            lib_opt_cases = opt_cases
+            lib_fmt_cases = fmt_cases if li < 2 else [c for j, c in enumerate(fmt_cases) if j % 3 == li % 3]
+        else:
+            # quick: per library F_force_wrapper plus a rotating slice, so that the libraries together cover the sample
+            lib_opt_cases = opt_cases[:1] + [c for j, c in enumerate(opt_cases[1:]) if j % nlib == li][:2]
+            lib_fmt_cases = [c for j, c in enumerate(fmt_cases) if j % nlib == li][:1] or fmt_cases[:1]
+        for field, cases in ((2, lib_opt_cases), (3, lib_fmt_cases)):
             fname = "options" if field == 2 else "format"
             for key, val in cases:
                 placements = [((), "library")] + [(p, it[0]) for p, it in conts]
-                if not thorough and len(placements) > 7:
+                if not thorough and len(placements) > 5:
                     # quick: the library, every container that itself contains a container (nesting), a sample of the rest
                     nest = [pl for pl, (p_, it_) in zip(placements[1:], conts) if any(k[0] != "fn" for k in it_[4])]
                     rest = [pl for pl in placements[1:] if pl not in nest]
-                    placements = [placements[0]] + nest + r.sample(rest, min(2, len(rest)))
+                    placements = [placements[0]] + nest[:6] + r.sample(rest, min(1, len(rest)))
                 for p, kind in placements:
                     a = copy.deepcopy(doc)
                     b = copy.deepcopy(doc)
@@ -1468,6 +1522,7 @@ def oracle_pairs(ctx, scr, thorough, fs_options, fs_formats, defaults_o, default
     ctx.note("oracle_tree_distribution", dict(stats))
     ctx.note("wrap_placement_distribution", dict(wrap_dist))
 
+    _phase('oracle:attrs')
     # ---------- inline attributes vs attrs / fattrs
     for i in range(24 if thorough else 12):
         inline, bare, attrs, fattrs = attr_variants(r) if i >= 12 else attr_variants(_Fixed(i))
@@ -1485,10 +1540,12 @@ def oracle_pairs(ctx, scr, thorough, fs_options, fs_formats, defaults_o, default
 
     oracle_attrs(ctx, orc, r, thorough)
 
+    _phase('oracle:cli+path')
     # ---------- YAML fields vs --option / --language (fresh processes, real command line)
     oracle_cli(ctx, orc, scr, r, thorough, defaults_o)
     oracle_paths(ctx, orc, scr, thorough)
 
+    _phase('oracle:create_wrapper')
     # ---------- create_wrapper vs the command line
     for i, withpath in enumerate([False, True] if thorough else [False]):
         doc = {"library": "cw", "cxx_header": "cw.hpp", "options": {"wrap_python": True},
@@ -1713,32 +1770,53 @@ def run(ctx):
     data, changed = extract_cli.regenerate()
     ctx.note("gen_cli", {"changed": changed, "parser_fields": len(data["defaults"]), "wrapper_assignments": len(data["assigns"]),
                          "fields_read": len(data["reads"])})
+    _PHASES.clear(); _T[0] = 0.0
+    _phase("lean")
+    reads, changed2 = extract_optreads.regenerate()
+    ctx.static_reads = reads
+    cls_count = collections.Counter("%s.%s" % (k, c) for k, n, c, o, s_ in reads)
+    ctx.note("gen_optreads", {"changed": changed2, "reads": len(reads), "by_kind_and_owner": dict(cls_count)})
     ok = ctx.lean(MODULES, THEOREMS, extra_targets=("drv_scope",))
     drv = common.Driver("drv_scope")
     ctx.cov["trusted_base"] = [
         "Lean 4.33.0 kernel; axioms within {propext, Classical.choice, Quot.sound}",
-        "hand-written model Model/Scope.lean of util.Scope, the node option/format scopes, Parser.attribute and the --option merge, "
-        "tied by differential correspondence (drv_scope)",
-        "tools/extract_cli.py: AST scan of shroud/main.py (add_argument defaults, create_wrapper assignments, args.<field> reads)",
-        "PyYAML scalar resolution (a YAML value is compared with the coerced command-line text only where both are bool/str)",
+        "hand-written model Model/Scope.lean (util.Scope heap, option/format scope trees, Parser.attribute, --option/--language merge, "
+        "search path), tied by differential correspondence through drv_scope except searchPath (oracle only)",
+        "tools/extract_cli.py: AST scan of shroud/main.py (add_argument dests/defaults/append actions, create_wrapper assignments, "
+        "args.<field> reads, class Config attributes)",
+        "tools/extract_optreads.py: AST scan of shroud/*.py for option/format reads with owner classification (aliases, eval_template, "
+        "scope parameters); validated each run against the Scope read trace; template-string format reads are outside it",
+        "corpus/c14.txt baseline of function-scoped options/format fields (measured with the full trace; leaving it is reported)",
+        "PyYAML scalar resolution (a YAML value is compared with the coerced command-line text where YAML yields the same bool/int/str)",
     ]
     ctx.cov["rule"] = ("scope programs: seeded random op sequences (new/get/has/get-default/set/setdefault/update/inlocal/delattrs/clone/"
-                       "reparent/eval_template), non-trivial = at least one lookup answered by a parent or a RecursionError; trees: generated "
-                       "descriptions built by ast.create_library_from_dictionary, non-trivial = a function inherits a value; attribute texts; "
-                       "CLI merges; oracle pairs: non-trivial = outputs equal AND (where a base run exists) different from the uncustomised base")
+                       "reparent/eval_template), non-trivial = a lookup answered by a parent or a RecursionError; trees: generated "
+                       "descriptions (blocks nested in blocks/classes/namespaces, options+format on every level) built by "
+                       "ast.create_library_from_dictionary, non-trivial = a function inherits a value; attribute texts: non-trivial = an "
+                       "attribute parsed or a parse error; CLI merges: non-trivial = coercion, override or crash; static-vs-dynamic: one "
+                       "evaluation per traced option; oracle pairs: non-trivial = outputs equal AND (where a base run exists) different "
+                       "from the uncustomised base; pairs rejected identically by Shroud on both sides are counted separately")
     ctx.assumptions += [
-        "theorems are about the Lean model; the model is validated against the code by differential testing on generated inputs only",
+        "theorems are about the Lean model and the regenerated tables; the model is validated against the code by differential testing on "
+        "generated inputs only",
         "option keys exclude the name-mangled slots _Scope__parent/_Scope__hidden",
-        "container = members is checked on outputs only for options/format fields measured to be read from function (or argument) scopes only; "
-        "options read at container level (doxygen, debug, literalinclude, wrap_*, file name templates ...) are outside that equivalence",
-        "the JSON debug dump is excluded from container/member comparisons (it records the node an option was written on)",
+        "container = members is checked on outputs for the baseline of options/format fields read from function (or argument) scopes only "
+        "(quick: baseline; thorough: baseline + measured) and, separately, for wrap_python/wrap_lua/wrap_c/wrap_fortran with the library "
+        "level off; other options read at container level (doxygen, debug, literalinclude, file name templates ...) and format fields "
+        "that Shroud computes per function unless set locally (function_suffix, C_name, F_name_impl ...) are outside that equivalence",
+        "members = every contained function that has no nearer definition of the key (push semantics of the Lean model)",
+        "the JSON debug dump is excluded from container/member comparisons; for attribute pairs it is compared without the quoted "
+        "declaration text and without attribute dictionaries holding only a YAML line number",
         "command-line option values are text coerced to bool (true/True/false/False), int (ASCII digit strings) or str: equivalence "
         "with a YAML field holds where YAML resolves the scalar to that same value (not for yes/on/1.5/negative numbers)",
+        "attribute pairs rejected by Shroud are required to be rejected on both sides with the same exception type only",
     ]
     scr = common.scratch("shroudverif-c14-")
     try:
         _run(ctx, thorough, ok, drv, scr)
     finally:
+        _phase("end")
+        ctx.note("phase_seconds", {k: v for k, v in _PHASES.items() if k != "_cur"})
         common.rmtree(scr)
 
 
@@ -1746,6 +1824,7 @@ def _run(ctx, thorough, ok, drv, scr):
     r = common.rng("c14")
     reqs, impl, tags = [], [], []
 
+    _phase('tie:scope')
     # ---------------- D1 scope programs
     nprog = 4000 if thorough else 800
     for _ in range(nprog):
@@ -1753,6 +1832,7 @@ def _run(ctx, thorough, ok, drv, scr):
         reqs.append("sc " + " ".join(ops))
         impl.append(real_scope_program(ops))
         tags.append("sc")
+    _phase('tie:trees')
     # ---------------- D2 trees
     ntree = 400 if thorough else 80
     tree_fn_orders = 0
@@ -1772,6 +1852,7 @@ def _run(ctx, thorough, ok, drv, scr):
             impl.append(real)
             tags.append("tr")
         tree_fn_orders += 1
+    _phase('tie:attrs')
     # ---------------- D3 attributes
     nattr = 3000 if thorough else 600
     for i in range(nattr):
@@ -1783,6 +1864,7 @@ def _run(ctx, thorough, ok, drv, scr):
         reqs.append("at " + " ".join("%s:%s" % (t.typ, common.enc(t.value)) for t in toks) if toks else "at")
         impl.append(res)
         tags.append("at")
+    _phase('tie:cli')
     # ---------------- D4 CLI merge
     ncl = 300 if thorough else 60
     names = ["debug", "wrap_python", "PY_array_arg", "F_CFI", "x"]
@@ -1845,6 +1927,7 @@ def _run(ctx, thorough, ok, drv, scr):
     for q, a in list(zip(reqs, impl))[:: max(1, len(reqs) // 6)][:6]:
         ctx.sample({"request": q[:300], "impl": a[:300]})
 
+    _phase('measure')
     # ---------------- measurement of option scopes
     trace_names = [n for n, _, _ in shroudrun.CORPUS] if thorough else TRACE_QUICK
     res_o, res_f, local_f, defaults_o, defaults_f = measure_scopes(trace_names)
@@ -1855,6 +1938,30 @@ def _run(ctx, thorough, ok, drv, scr):
                         and isinstance(defaults_f[n], str))
     # The domain must not silently shrink: an option that used to be read only from function scopes and is now read
     # from a container's scope is exactly the defect this property is about.  Baseline = corpus/c14.txt.
+    # ---- the dynamic trace validates the static classification of Gen/OptReads.lean
+    static = collections.defaultdict(set)
+    for k_, n_, c_, o_, s_ in getattr(ctx, "static_reads", []):
+        static[(k_, n_)].add(c_)
+    problems = {}
+    for n_, c_ in sorted(res_o.items()):
+        st, dyn = static.get(("options", n_), set()), set(c_)
+        why = []
+        if not st:
+            why.append("read at run time, no syntactic read found")
+        if st and st <= {"library"} and not dyn <= {"library"}:
+            why.append("statically only library-level owners, read from %s at run time" % sorted(dyn))
+        if "library" in dyn and not (st & {"library", "node", "other"}):
+            why.append("read from the library's scope at run time, no library/generic owner found")
+        if "function" in dyn and not (st & {"node", "other", "block"}):
+            why.append("read from a function's scope at run time, no node owner found")
+        if why:
+            problems[n_] = why
+    fmt_seen = sum(1 for n_ in res_f if static.get(("fmtdict", n_)))
+    ctx.note("static_vs_dynamic", {"options_traced": len(res_o), "options_inconsistent": len(problems),
+                                   "format_fields_traced": len(res_f), "format_fields_with_explicit_static_read": fmt_seen})
+    ctx.count(len(res_o))
+    if problems:
+        ctx.tie_broken("optreads-static-vs-dynamic", problems)
     ctx.note("measured_function_scoped_options", fs_options)
     ctx.note("measured_function_scoped_format_fields", fs_formats)
     base_o, base_f = load_baseline()
